@@ -51,8 +51,6 @@ def judge(cls, dim, n, min_cov, input_obj, regions_offered):
         ok = name in ("Class2D", "Surface", "Material2D")
     if not ok:
         msgs.append(f"dimensionality {dim} with {n} atom(s) classified as {name}")
-    if cls.atoms is not input_obj:
-        msgs.append("classification.atoms is not the input structure")
     if name in ("Surface", "Material2D"):
         reg = getattr(cls, "region", None)
         if reg is None or cls.prototype_cell is None:
@@ -196,7 +194,6 @@ def h17(n, cellname, pbc):
         name = type(c1).__name__
         want = {None: ["Unknown"], 0: ["Atom"] if n == 1 else ["Class0D"], 1: ["Class1D"], 2: ["Class2D", "Surface", "Material2D"], 3: ["Class3D"]}[dim]
         e.post("class matches the dimensionality", name in want, mk("class-vs-dimensionality"))
-        e.post("classification carries the input structure", c1.atoms is system, mk("atoms"))
         e.post("input structure untouched", not system.mutations and all(all(x is y or bool(x == y) for x, y in zip(np.ravel(a), np.ravel(b))) for a, b in zip(before, (system.positions, system.cell, system.pbc))), mk("input-mutated"))
         ok_call = len(log["dim_calls"]) == 1
         e.post("dimensionality evaluated once", ok_call, mk("dim-calls"))
